@@ -241,3 +241,345 @@ def random_walk(rng, length, wb, blockbytes=None):
                 n = blockbytes + rng.randrange(-9, 10)
             walk.append(("fill_bytes", n))
     return walk
+
+
+# ---------------------------------------------------------------- jitter (C12, C14, C16)
+M64 = (1 << 64) - 1
+
+
+def seg_readings(rng, t, kind, length):
+    """reading-level delta patterns; time-stamp deltas are sums of three consecutive reading deltas,
+    so constant / linear / zero reading deltas give stuck first / second / zeroth differences"""
+    out = []
+    if kind == "random":
+        for _ in range(length):
+            t = (t + rng.choice([37, 41, 43, 53, 59, 61, 67, 71, 73, 79, 83, 89, 97, 101, 211, 307, 1009]) + rng.randrange(0, 900)) & M64
+            out.append(t)
+    elif kind == "const":
+        c = rng.choice([1, 7, 100, 1000, 12345])
+        for _ in range(length):
+            t = (t + c) & M64
+            out.append(t)
+    elif kind == "linear":
+        c, s = rng.choice([1, 50, 999]), rng.choice([1, 3, 10])
+        for i in range(length):
+            t = (t + c + s * i) & M64
+            out.append(t)
+    elif kind == "zero":
+        out = [t] * length
+    elif kind == "backwards":
+        for _ in range(length):
+            t = (t - rng.randrange(1, 5000)) & M64
+            out.append(t)
+    elif kind == "wild":
+        for _ in range(length):
+            t = rng.getrandbits(64)
+            out.append(t)
+    elif kind == "big":           # deltas near 2^31 / 2^32 in magnitude but never overflowing an i32 difference of deltas
+        for _ in range(length):
+            t = (t + rng.choice([(1 << 30) - 1, (1 << 30) + 3, (1 << 32) + 17, (1 << 33) + 5, (1 << 29) + rng.randrange(1000)])) & M64
+            out.append(t)
+    elif kind == "hundreds":
+        for _ in range(length):
+            t = (t + 100 * rng.randrange(1, 40)) & M64
+            out.append(t)
+    return out, t
+
+
+def jitter_script(rng, segs):
+    t = rng.getrandbits(44) + 1
+    out = []
+    for kind, length in segs:
+        r, t = seg_readings(rng, t, kind, length)
+        out += r
+    return out
+
+
+CONT = [u64(97), u64(1013), u64(331), u64(1999), u64(53), u64(7), u64(4001)]
+
+
+def jitter_case(rng, tier, style):
+    """ops of one JitterRng case: a scripted timer and a random operation history"""
+    rounds = rng.choice([1, 1, 2, 2, 3, 5] + ([64] if rng.random() < 0.3 else []) + ([255] if tier != "quick" and rng.random() < 0.1 else []))
+    nops = rng.randrange(4, 10)
+    segs = []
+    total = 0
+    need = nops * (4 + 3 * (rounds + 1)) * 2 + 50
+    while total < need:
+        kind = rng.choice(style)
+        ln = rng.randrange(3, 14) if kind != "random" else rng.randrange(10, 60)
+        segs.append((kind, ln))
+        total += ln
+        if kind != "random":
+            segs.append(("random", rng.randrange(6, 20)))
+            total += segs[-1][1]
+    sc = jitter_script(rng, segs)
+    ops = [{"op": "timer", "t": 1, "readings": [u64(x) for x in sc], "cont": CONT},
+           {"op": "jit_new", "g": 1, "t": 1}]
+    if rounds != 64 or rng.random() < 0.5:
+        ops.append({"op": "set_rounds", "g": 1, "r": rounds})
+    live = [1]
+    nextg = 2
+    for _ in range(nops):
+        g = rng.choice(live)
+        r = rng.random()
+        if r < 0.25:
+            ops.append({"op": "next_u64", "g": g})
+        elif r < 0.5:
+            ops.append({"op": "next_u32", "g": g})
+            if rng.random() < 0.6:
+                ops.append({"op": "next_u32", "g": g})
+        elif r < 0.7:
+            ops.append({"op": "fill_bytes", "g": g, "n": rng.choice([0, 1, 2, 3, 4, 5, 7, 8, 9, 12, 13, 16, 17, 23, 24])})
+        elif r < 0.82:
+            ops.append({"op": "timer_stats", "g": g, "var": rng.random() < 0.5})
+        elif r < 0.9:
+            ops.append({"op": "set_rounds", "g": g, "r": rng.choice([1, 2, 3, 4])})
+        elif len(live) < 3:
+            ops.append({"op": "clone", "g": g, "to": nextg})
+            live.append(nextg)
+            nextg += 1
+        else:
+            ops.append({"op": "debug", "g": g})
+    return ops
+
+
+def c12_corpus(seed, tier):
+    rng = random.Random(seed * 1000003 + 12)
+    S = Sched()
+    n = 40 if tier == "quick" else 600
+    styles = [["random"], ["random", "const", "linear", "zero"], ["random", "backwards", "wild"],
+              ["random", "big"], ["random", "hundreds", "const"], ["wild"], ["random", "zero", "const", "linear", "backwards", "big"]]
+    for i in range(n):
+        st = styles[i % len(styles)]
+        S.case("jitter %s #%d" % ("+".join(st), i), jitter_case(rng, tier, st))
+    # the one documented panic
+    sc = jitter_script(rng, [("random", 100)])
+    S.case("jitter set_rounds(0)", [{"op": "timer", "t": 1, "readings": [u64(x) for x in sc], "cont": CONT},
+                                    {"op": "jit_new", "g": 1, "t": 1}, {"op": "set_rounds", "g": 1, "r": 2},
+                                    {"op": "next_u32", "g": 1}, {"op": "set_rounds", "g": 1, "r": 0},
+                                    {"op": "next_u32", "g": 1}, {"op": "next_u64", "g": 1}])
+    return S
+
+
+# ---------------------------------------------------------------- C14: hostile inputs
+def hostile_seg(rng, t, kind, length):
+    out = []
+    E = [(1 << 31) - 1, 1 << 31, (1 << 31) + 1, (1 << 32) - 1, 1 << 32, (1 << 32) + 1, 1 << 63, M64, M64 - (1 << 31) + 1,
+         (1 << 33) - 7, 3, 1]
+    if kind == "edge":
+        for _ in range(length):
+            t = (t + rng.choice(E)) & M64
+            out.append(t)
+    elif kind == "pingpong":      # time stamps alternate between two values ~2^31 apart: deltas +2^31-ish, -2^31-ish
+        a, b = t, (t + (1 << 31) - rng.randrange(1, 50)) & M64
+        for i in range(length):
+            out.append(((a if i % 2 == 0 else b) + i * rng.randrange(1, 9)) & M64)
+        t = out[-1]
+    elif kind == "decreasing":
+        for _ in range(length):
+            t = (t - rng.randrange(1, 1 << rng.choice([4, 12, 31, 33]))) & M64
+            out.append(t)
+    elif kind == "wrap":
+        t = M64 - rng.randrange(0, 1000)
+        for _ in range(length):
+            t = (t + rng.randrange(1, 700)) & M64
+            out.append(t)
+    else:
+        return seg_readings(rng, t, kind, length)
+    return out, t
+
+
+def hostile_script(rng, kinds, total):
+    t = rng.choice([rng.getrandbits(44) + 1, M64 - 5000, (1 << 63) - 100, (1 << 32) - 100])
+    out = []
+    while len(out) < total:
+        k = rng.choice(kinds)
+        r, t = hostile_seg(rng, t, k, rng.randrange(3, 25))
+        out += r
+        r, t = hostile_seg(rng, t, "random", rng.randrange(4, 12))
+        out += r
+    return out
+
+
+def c14_jitter_corpus(seed, tier):
+    rng = random.Random(seed * 1000003 + 14)
+    S = Sched()
+    n = 30 if tier == "quick" else 400
+    kindsets = [["edge"], ["pingpong"], ["decreasing"], ["wrap"], ["edge", "pingpong", "decreasing", "wrap", "wild", "zero"]]
+    for i in range(n):
+        ks = kindsets[i % len(kindsets)]
+        rounds = rng.choice([1, 2, 3, 64])
+        sc = hostile_script(rng, ks, 60 + 12 * (rounds + 2))
+        ops = [{"op": "timer", "t": 1, "readings": [u64(x) for x in sc], "cont": CONT},
+               {"op": "jit_new", "g": 1, "t": 1}, {"op": "set_rounds", "g": 1, "r": rounds}]
+        for _ in range(rng.randrange(3, 7)):
+            r = rng.random()
+            if r < 0.3:
+                ops.append({"op": "next_u64", "g": 1})
+            elif r < 0.55:
+                ops.append({"op": "next_u32", "g": 1})
+            elif r < 0.75:
+                ops.append({"op": "fill_bytes", "g": 1, "n": rng.choice([0, 1, 4, 5, 8, 9, 17, 33])})
+            else:
+                ops.append({"op": "timer_stats", "g": 1, "var": rng.random() < 0.5})
+        S.case("hostile jitter %s #%d" % ("+".join(ks), i), ops)
+    # test_timer over hostile timers (1601 readings each)
+    nt = 8 if tier == "quick" else 80
+    for i in range(nt):
+        ks = kindsets[i % len(kindsets)]
+        sc = hostile_script(rng, ks if i % 2 else ["pingpong", "edge"], 1700)
+        # avoid trivially early exits: no zero readings
+        sc = [x if x != 0 else 1 for x in sc]
+        S.case("hostile test_timer %s #%d" % ("+".join(ks), i),
+               [{"op": "timer", "t": 1, "readings": [u64(x) for x in sc], "cont": CONT},
+                {"op": "jit_new", "g": 1, "t": 1}, {"op": "test_timer", "g": 1}, {"op": "next_u32", "g": 1}], weight=500)
+    # targeted: probe deltas ..., -2^30-5, -2^30, +2^30: the variation sum sees delta - old = +2^31 while
+    # every difference in the stuck test stays inside i32
+    for shift in (0, 1, 2):
+        t = (1 << 50) + 12345
+        rd = [t]
+        for j in range(1, 401):
+            i = j - 101
+            d = 1000 + 37 * (j % 11) + (j * j) % 29
+            if i == 20 + shift:
+                d = -(1 << 30) - 5
+            elif i == 21 + shift:
+                d = -(1 << 30)
+            elif i == 22 + shift:
+                d = 1 << 30
+            time = (t + 500 + j) & M64
+            time2 = (time + d) & M64
+            rd += [time, (time + 1) & M64, (time + 2) & M64, time2]
+            t = max(time, time2)
+        S.case("hostile test_timer variation +2^31 #%d" % shift,
+               [{"op": "timer", "t": 1, "readings": [u64(x) for x in rd], "cont": CONT},
+                {"op": "jit_new", "g": 1, "t": 1}, {"op": "test_timer", "g": 1}, {"op": "next_u32", "g": 1}], weight=500)
+    return S
+
+
+def c14_api_corpus(seed, tier):
+    rng = random.Random(seed * 1000003 + 15)
+    S = Sched()
+    lens = [0, 1, 2, 3, 4, 5, 6, 7, 8, 9, 10, 11, 12, 13, 14, 15, 16, 17, 63, 64, 65, 1023, 1024, 1025, 2047, 2048, 2049]
+    for kind in ALL_SEEDABLE:
+        seeds = [[0xFF] * SEEDLEN[kind], [0] * SEEDLEN[kind], [0x80] * SEEDLEN[kind],
+                 [0xFF] * (SEEDLEN[kind] - 1) + [0x7F], [rng.getrandbits(8) for _ in range(SEEDLEN[kind])]]
+        for si, sd in enumerate(seeds):
+            walk = []
+            for n in lens:
+                walk.append(("fill_bytes", n))
+                walk.append((rng.choice(["next_u32", "next_u64"]), 0))
+            if tier != "quick" and si == 0:
+                walk.append(("fill_bytes", 100000))
+            ops = api_case_ops(kind, walk, rng)
+            for o in ops:
+                if o["op"] == "from_seed":
+                    o["seed"] = sd
+            S.case("extreme %s seed#%d" % (kind, si), ops, weight=3000)
+        for x in (0, 1, M64, 1 << 63, (1 << 32) - 1):
+            walk = [("next_u64", 0), ("fill_bytes", 13), ("next_u32", 0), ("fill_bytes", 0), ("next_u32", 0)]
+            ops = api_case_ops(kind, walk, rng)
+            for o in ops:
+                if o["op"] == "from_seed":
+                    o["op"] = "seed_from_u64"
+                    del o["seed"]
+                    o["x"] = u64(x)
+            S.case("extreme %s seed_from_u64(%d)" % (kind, x), ops)
+    return S
+
+
+def c14_alg_corpus(seed, tier):
+    rng = random.Random(seed * 1000003 + 16)
+    S = Sched()
+    for kind in XO:
+        wb = WORDBYTES[kind]
+        n = SEEDLEN[kind] // wb
+        M = (1 << (8 * wb)) - 1
+        ops = []
+        for st in ([M] * n, [1 << (8 * wb - 1)] * n, [M] + [0] * (n - 1), [0] * (n - 1) + [M]):
+            ops.append({"op": "from_seed", "g": 1, "kind": kind, "seed": words_to_seed(st, wb)})
+            ops.append({"op": native_op(kind), "g": 1, "n": 4})
+            if kind in XO_JUMP:
+                ops.append({"op": "jump", "g": 1})
+                ops.append({"op": native_op(kind), "g": 1, "n": 2})
+                ops.append({"op": "long_jump", "g": 1})
+                ops.append({"op": native_op(kind), "g": 1, "n": 2})
+        S.case("extreme states %s" % kind, ops, weight=600)
+    return S
+
+
+# ---------------------------------------------------------------- C13: test_timer scripts
+def tt_script(rng, mean, zr=False, zd=False, back=0, mod=0, stuck=0, negalt=False):
+    """A 1601-reading timer script realising (approximately) an abstract summary of the 400 probes:
+    probe j reads time, a, b, time2.  Evaluated probes (101..400) get deltas alternating x, x+mean
+    so that the mean |delta variation| is `mean`; counts are planted on top.  The exact summary is
+    recomputed from the readings by the specification, not here."""
+    t = rng.getrandbits(40) + (1 << 20)
+    rd = [t]
+    v = mean
+    x = v + rng.randrange(1, 250) if v < (1 << 30) else rng.randrange(3, 1000)
+    if mod == 0 and x % 100 == 0:
+        x += 1
+    for j in range(1, 401):
+        i = j - 101
+        if i < 0:
+            d = rng.randrange(40, 5000) | 1
+        else:
+            if negalt:       # deltas alternate -a, +b with a + b = v  (needs 2^32-scale variation)
+                a = v // 2
+                d = -a if i % 2 == 0 else (v - a)
+                if d == 0:
+                    d = 1
+            else:
+                d = x if i % 2 == 0 else x + v
+            if i < stuck:
+                d = x                       # constant delta: first difference zero
+            elif i < stuck + mod or (mod and i >= 300 - mod and stuck == 0):
+                d = 100 * (1 + (i % 7)) + (100 * v if i % 2 else 0)
+            if i >= 300 - back:
+                d = -rng.randrange(1, 90)
+        gap = rng.randrange(10, 3000)
+        time = (t + gap) & M64
+        if zr and j == (57 if zd else 250):
+            time = 0
+        if zd and j == 131:
+            d = 0 if rng.random() < 0.5 else (1 << 32)
+        time2 = (time + d) & M64
+        rd += [time, (time + 1) & M64, (time + 2) & M64, time2]
+        t = max(time, time2) if d >= 0 else time
+    return rd
+
+
+def c13_corpus(seed, tier, cases):
+    """cases: abstract boundary summaries printed by TLC (MC_TestTimer) as dicts"""
+    rng = random.Random(seed * 1000003 + 13)
+    S = Sched()
+
+    def add(label, rd, then_set=True):
+        S.case(label, [{"op": "timer", "t": 1, "readings": [u64(x) for x in rd], "cont": CONT},
+                       {"op": "jit_new", "g": 1, "t": 1},
+                       {"op": "test_timer", "g": 1, "then_set": then_set},
+                       {"op": "next_u32", "g": 1}], weight=450)
+    for c in cases:
+        add("tt mean=%d zr=%s zd=%s back=%d mod=%d stuck=%d" % (c["mean"], c["zr"], c["zd"], c["back"], c["mod"], c["stuck"]),
+            tt_script(rng, c["mean"], c["zr"], c["zd"], c["back"], c["mod"], c["stuck"], negalt=c["mean"] >= (1 << 30)))
+    # seeded random timers
+    for i in range(6 if tier == "quick" else 120):
+        style = rng.choice(["jit", "coarse", "const", "lin", "wild"])
+        t = rng.getrandbits(40) + 1
+        rd = [t]
+        for k in range(1600):
+            if style == "jit":
+                t += rng.randrange(1, 1 << rng.choice([3, 6, 10, 16]))
+            elif style == "coarse":
+                t += 100 * rng.randrange(0, 4)
+            elif style == "const":
+                t += 25
+            elif style == "lin":
+                t += 10 + (k % 4)
+            else:
+                t = rng.getrandbits(64) if rng.random() < 0.02 else t + rng.randrange(1, 5000)
+            rd.append(t & M64)
+        add("tt random %s #%d" % (style, i), rd)
+    return S
